@@ -8,7 +8,7 @@ THEOREMS = ["SCP.C17." + t for t in """mem_charMapFrom nchars_new pos_le_nchars 
 step_wf pipeline_ordered ordered_consecutive old_collision_witness""".split()] + ["SCP.LexerUi.lexer_highlight_wf"]
 RULE = ("lines of the shared generators (arithmetic, money, percent, dates, durations, times with zones, units, variables over several "
         "lines, comments) with words from a curated alphabet inserted before / between / after tokens: 2-, 3-, 4-byte characters, characters "
-        "whose case mapping changes their byte length (İ ß ŉ ǰ ΐ ﬁ ﬃ K Ω), combining marks, RTL currency symbols, blanks other than U+0020 (U+00A0 U+2009 U+3000 U+202F U+2003) glued to numbers / operators / inside comments, Turkish words, in en and tr; "
+        "whose case mapping changes their byte length (İ ß ŉ ǰ ΐ ﬁ ﬃ K Ω), combining marks, RTL currency symbols, lines of more than 2^16 characters (implementation only: the model is not run on them), blanks other than U+0020 (U+00A0 U+2009 U+3000 U+202F U+2003) glued to numbers / operators / inside comments, Turkish words, in en and tr; "
         "oracle 1 (every line): 0 <= start < end <= number of characters, ordered by start, no overlap; oracle 2 (structured lines whose "
         "pieces are known): every number literal, operator character and comment has a token of its own kind covering exactly its characters; "
         "tie: the highlight requests of the model's tokenizers (from the raw text) equal the adds of the implementation's operation log; the implementation's operation log (hook, target verif_ui) of EVERY collection is replayed on the Lean model: final tokens and "
@@ -169,7 +169,14 @@ def run(ctx, model_ok):
             cases.append({"lang": lang, "text": noisy(rng, base.replace("\r\n", "\n")), "exp": None})
         else:
             cases.append({"lang": lang, "text": "".join(rng.choice(ALPHA + [" ", "1", "+", "#", "may", "EST", "12:30", "%", "$"]) for _ in range(rng.randint(1, 12))), "exp": None})
-    res = C.run_impl([{"op": "exec", "lang": c["lang"], "text": c["text"], "uilog": True} for c in cases])
+    # lines longer than 2^16 characters (a long run of blanks or a long multi-byte note in front of the calculation): positions
+    # are character counts of any size
+    for pad in ([" " * 65600, "é" * 33000 + " " + "ğ" * 33000 + " "] if ctx.quick() else [" " * 65600, "é" * 33000 + " " + "ğ" * 33000 + " ", "x " * 40000, "日" * 70000 + " "]):
+        a_, b_ = rng.randint(10, 99), rng.randint(1, 9)
+        text = f"{pad}{a_} + {b_}"
+        n0 = len(pad)
+        cases.append({"lang": "en", "text": text, "exp": [(n0, n0 + 2, "Number"), (n0 + 3, n0 + 4, "Operator"), (n0 + 5, n0 + 6, "Number")], "long": True})
+    res = C.run_impl([{"op": "exec", "lang": c["lang"], "text": c["text"], "uilog": not c.get("long")} for c in cases], timeout_ms=60000)
     replay = []   # (case index, line index, bytes, ops, impl tokens)
     for ci, (c, r) in enumerate(zip(cases, res)):
         ops = [{"op": "exec", "lang": c["lang"], "text": c["text"]}]
@@ -208,6 +215,8 @@ def run(ctx, model_ok):
         # the model's tokenizers on the same multi-byte lines (token spans are byte offsets; case-mapped copies are translated back)
         lt = []
         for c in cases[:ctx.n(1500, 30000)]:
+            if c.get("long"):
+                continue
             for ln in wire.split_lines(c["text"])[:3]:
                 lt.append(([], c["lang"], ln))
         wire.lex_tie(ctx, lt)
